@@ -234,8 +234,13 @@ def render_floats(case):
     orig = fl.find_float_position
 
     def logging_find_float_position(context, box, containing_block):
+        # stale: the list of excluded shapes holds a box of the very element being placed, or two boxes of one element
+        # (left there by an earlier layout pass of the same line)
+        els = [id(s.element) for s in context.excluded_shapes if getattr(s, 'element', None) is not None]
+        stale = len(set(els)) < len(els) or id(box.element) in els
         new = orig(context, box, containing_block)
-        placed[id(new)] = (new.position_x, new.position_y)
+        # position decided by float.py and the rank of this call (the order in which floats are placed)
+        placed[id(new)] = (new.position_x, new.position_y, len(placed), stale)
         return new
     fl.find_float_position = logging_find_float_position
     try:
@@ -244,6 +249,12 @@ def render_floats(case):
         fl.find_float_position = orig
     recs = []
     counter = [0]
+    # source (document) order of the elements
+    src = {}
+    root_box = pages[0].children[0] if pages and pages[0].children else None
+    if root_box is not None and getattr(root_box, 'element', None) is not None:
+        for i, el in enumerate(root_box.element.iter()):
+            src[id(el)] = i
 
     def content_rect(line):
         """the extent of the in-flow inline content of a line box (the LineBox rectangle itself is not updated
@@ -256,7 +267,20 @@ def render_floats(case):
                 return
             if isinstance(b, boxes.TextBox) or not getattr(b, 'children', None):
                 if b.width and b.width > 0:
-                    xs.append((b.position_x, b.position_x + b.margin_width()))
+                    x0, x1 = b.position_x, b.position_x + b.margin_width()
+                    text = getattr(b, 'text', None)
+                    if isinstance(b, boxes.TextBox) and text and text.strip(' '):
+                        # collapsible spaces at the ends of a text box are not visible content (the one at the end
+                        # of a line is kept in the box when a float follows it)
+                        per = b.width / len(text)
+                        lead = (len(text) - len(text.lstrip(' '))) * per
+                        trail = (len(text) - len(text.rstrip(' '))) * per
+                        if b.style['direction'] == 'rtl':
+                            lead, trail = trail, lead
+                        x0, x1 = x0 + lead, x1 - trail
+                    elif isinstance(b, boxes.TextBox) and text is not None and not text.strip(' '):
+                        return
+                    xs.append((x0, x1))
                 return
             for c in b.children:
                 go(c)
@@ -314,7 +338,12 @@ def render_floats(case):
                         scan(c)
                     rec['float_after_content'] = after
                 if kind == 'float':
-                    rec['placed'] = placed.get(id(b))
+                    pl = placed.get(id(b))
+                    rec['placed'] = pl[:2] if pl else None
+                    rec['seq'] = pl[2] if pl else None
+                    rec['stale'] = bool(pl[3]) if pl else False
+                rec['src'] = src.get(id(b.element)) if b.element is not None else None
+                rec['dir'] = cb.style['direction']
                 recs.append(rec)
         inside = in_root_bfc and not (
             is_float or (isinstance(b, boxes.Box) and not isinstance(b, (boxes.PageBox, boxes.LineBox, boxes.InlineBox, boxes.TextBox))
